@@ -13,7 +13,7 @@ LEAN_TARGETS = ["LoguruModel.Props.C19"]
 AUDIT_FILE = "LoguruModel/Audit/C19.lean"
 DRIVER = "Rotation"
 RULE = ("(limit S as int / float / Decimal / spelling, optional companion time condition, file encoding, the sink's "
-        "open() keywords `buffering` (default, 1, -1, 2, 16, 64, 4096, 2^20) and `newline` (absent, None, '', LF, CR, CRLF), the log path (plain, through a symlinked directory, a symlinked file), line end of the records (newline, or none / "
+        "open() keywords `buffering` (default, 1, -1, 2, 16, 64, 4096, 2^20) and `newline` (absent, None, '', LF, CR, CRLF), the log path (plain, through a symlinked directory, a symlinked file), the open() keyword `errors` (absent, strict, replace, ignore, backslashreplace, xmlcharrefreplace, namereplace, surrogatepass) with characters the encoding lacks, a foreign writer appending to the same file between two records, line end of the records (newline, or none / "
         "'|' as a callable format leaves them), through FileSink.write or through logger.add()/logger.info(), "
         "pre-existing size P, message sequence): messages are sized around the room left in the current file (exact "
         "fit, one byte over, larger than S, empty) with ASCII / 2- / 3- / 4-byte UTF-8 content; a real FileSink writes "
@@ -35,30 +35,66 @@ CONTENT = {
     "two": "éЖλש",
     "three": "€中日本√",
     "four": "😀𝄞🜚",
+    "surrogate": "\udc80\ud800a",
 }
 PREFIX = "kmgtpezy"
 
 
-def gen_text(rng, seq, want_bytes, encoding, kinds, end="\n"):
+def gen_text(rng, seq, want_bytes, encoding, kinds, end="\n", errors="default"):
     """a message tagged with its sequence number, of roughly `want_bytes` encoded bytes, ending in `end`
     (a newline as the default format produces, or whatever a callable format leaves: "|", nothing)"""
     tag = "<%d>" % seq
     body = ""
     pool = "".join(CONTENT[k] for k in kinds)
-    while len((tag + body + end).encode(encoding)) < want_bytes:
+    while len((tag + body + end).encode(encoding, 'strict' if errors == 'default' else errors)) < want_bytes \
+            and len(body) < 4 * want_bytes + 40:      # (with errors="ignore" a character may add no byte at all)
         body += rng.choice(pool)
     text = tag + body + end
     # trim to hit the target exactly when possible
-    while len(text.encode(encoding)) > want_bytes and body:
+    while len(text.encode(encoding, 'strict' if errors == 'default' else errors)) > want_bytes and body:
         body = body[:-1]
         text = tag + body + end
-    if len(text.encode(encoding)) < want_bytes and encoding != "utf-16-le":
-        text = tag + body + "a" * (want_bytes - len(text.encode(encoding))) + end
+    if len(text.encode(encoding, 'strict' if errors == 'default' else errors)) < want_bytes and encoding != "utf-16-le":
+        text = tag + body + "a" * (want_bytes - len(text.encode(encoding, 'strict' if errors == 'default' else errors))) + end
     return text
 
 
 NEWLINES = ["default", "default", "default", None, "", "\n", "\r", "\r\n", "\r\n"]   # "default" = keyword not passed
 KEY_NEWLINE = "C19-newline-translation-undercounted"
+
+
+ERRORS = ["default", "default", "default", "default", "strict", "replace", "ignore", "backslashreplace",
+          "xmlcharrefreplace", "namereplace", "surrogatepass"]
+LENIENT = ("replace", "ignore", "backslashreplace", "xmlcharrefreplace", "namereplace")
+
+
+def enc_bytes(text, encoding, errors):
+    """text.encode with the sink's open() keyword `errors` ("default" = keyword not passed = strict)"""
+    return text.encode(encoding, "strict" if errors == "default" else errors)
+
+
+def partition_blobs(files, blobs, pre_bytes):
+    """map every file's content back to message indices, given the bytes each message takes on disk
+    (messages are made unique by a sequence tag) -> [(indices, size, holds the pre-existing content)]"""
+    out = []
+    for name, data in files:
+        body, first = data, False
+        if pre_bytes and data.startswith(pre_bytes):
+            body, first = data[len(pre_bytes):], True
+        idx, pos = [], 0
+        while pos < len(body):
+            hit = None
+            for i, b in enumerate(blobs):
+                if i not in idx and body.startswith(b, pos) and (hit is None or len(b) > len(blobs[hit])):
+                    if not idx or i == idx[-1] + 1:
+                        hit = i
+            if hit is None:
+                return None
+            idx.append(hit)
+            pos += len(blobs[hit])
+        out.append((idx, len(data), first))
+    out.sort(key=lambda e: (e[0][0] if e[0] else -1, not e[2]))
+    return out
 
 
 def on_disk(text, newline):
@@ -174,7 +210,7 @@ def over_limit(d, limit, blobs):
 
 
 def run_sink_case(obj, ts0, pre, msgs, encoding, texts_bytes, S, P, buffering=None, newline="default",
-                  path_kind="plain"):
+                  path_kind="plain", errors="default"):
     """like R.impl_sink, but looks at the directory after every call (direct oracle, first half).
     The stream is NOT flushed by the harness: what the rotation test does not count must not pile up."""
     import loguru._file_sink as fs
@@ -185,10 +221,12 @@ def run_sink_case(obj, ts0, pre, msgs, encoding, texts_bytes, S, P, buffering=No
     clock = R.FrozenClock()
     old_dt = fs.datetime
     over = None
-    blobs = [on_disk(t, newline).encode(encoding) for _, _, t in msgs]
+    blobs = [enc_bytes(on_disk(t, newline), encoding, errors) for _, _, t in msgs]
     kw = {} if buffering is None else {"buffering": buffering}
     if newline != "default":
         kw["newline"] = newline
+    if errors != "default":
+        kw["errors"] = errors
     try:
         path, d_logs = make_log_path(d, path_kind, pre)
         rp = os.path.realpath
@@ -226,7 +264,8 @@ def run_sink_case(obj, ts0, pre, msgs, encoding, texts_bytes, S, P, buffering=No
         shutil.rmtree(d, ignore_errors=True)
 
 
-def run_logger_case(obj, pre, bodies, end, encoding, S, P, buffering=None, newline="default", path_kind="plain"):
+def run_logger_case(obj, pre, bodies, end, encoding, S, P, buffering=None, newline="default", path_kind="plain",
+                    errors="default"):
     """the same through the public API: logger.add(path, format=…, rotation=…, buffering=…, encoding=…) and
     logger.info(); `end` == "\n" uses the string format "{message}", anything else a callable format that
     leaves the record without a line end.  Only size conditions (the clock is real here)."""
@@ -238,10 +277,12 @@ def run_logger_case(obj, pre, bodies, end, encoding, S, P, buffering=None, newli
                     capture=True, patchers=[], extra={})
     d = tempfile.mkdtemp(prefix="verif-size-")
     over = None
-    blobs = [on_disk(b + end, newline).encode(encoding) for b in bodies]
+    blobs = [enc_bytes(on_disk(b + end, newline), encoding, errors) for b in bodies]
     kw = {} if buffering is None else {"buffering": buffering}
     if newline != "default":
         kw["newline"] = newline
+    if errors != "default":
+        kw["errors"] = errors
     try:
         path, d_logs = make_log_path(d, path_kind, pre)
         fmt = "{message}" if end == "\n" else (lambda record: "{message}" + end)
@@ -272,6 +313,60 @@ def run_logger_case(obj, pre, bodies, end, encoding, S, P, buffering=None, newli
         shutil.rmtree(d, ignore_errors=True)
 
 
+def greedy_with_foreign(S, P, ops):
+    """the files the property demands when other writers also append: ops = ("m", i, blob) | ("x", j, blob);
+    a record starts a new file iff the bytes REALLY in the current file plus its own exceed S"""
+    files, cur, size = [], [b"x" * P], P
+    for kind, _, blob in ops:
+        if kind == "m" and size + len(blob) > S:
+            files.append(b"".join(cur))
+            cur, size = [], 0
+        cur.append(blob)
+        size += len(blob)
+    files.append(b"".join(cur))
+    return files
+
+
+def run_foreign_case(S, P, ops, buffering=None):
+    """a real FileSink (size rotation S) while another writer appends to the same path between two records
+    -> ("ok", [contents]) | …"""
+    import loguru._file_sink as fs
+    import shutil
+    import tempfile
+    d = tempfile.mkdtemp(prefix="verif-size-")
+    ctimes = {}
+    try:
+        path, d_logs = make_log_path(d, "plain", (b"x" * P) if P else None)
+        rp = os.path.realpath
+        with R.patched_ctime(lambda p: ctimes.get(rp(p), 0.0), lambda p, t: ctimes.__setitem__(rp(p), t)):
+            kw = {} if buffering is None else {"buffering": buffering}
+            sink = fs.FileSink(path, rotation=S, **kw)
+            try:
+                with R.time_limit(20):
+                    for kind, i, blob in ops:
+                        if kind == "x":
+                            with open(path, "ab") as other:      # O_APPEND, like a second handler or another process
+                                other.write(blob)
+                        else:
+                            sink.write(R.make_message(blob.decode("utf8"), i, 0))
+            except R.Hang:
+                return ("hang", 0)
+            except Exception as e:  # noqa
+                return ("raised", R.canon_err(e))
+            finally:
+                try:
+                    sink.stop()
+                except Exception:  # noqa
+                    pass
+        out = []
+        for name in os.listdir(d_logs):
+            with open(os.path.join(d_logs, name), "rb") as fh:
+                out.append(fh.read())
+        return ("ok", out)
+    finally:
+        shutil.rmtree(d, ignore_errors=True)
+
+
 def canon_files(idx_lists):
     non = [f for f in idx_lists if f]
     return R.show_files(non) + " e%d" % (len(idx_lists) - len(non))
@@ -294,20 +389,22 @@ def run(ctx):
     lines, expect = [], []
 
     def sink_case(obj, token, S, P, encoding, texts, stamps, off, eff, ts, pure, rep_extra, key=None, how="",
-                  buffering=None, via="sink", end="\n", newline="default", path_kind="plain"):
+                  buffering=None, via="sink", end="\n", newline="default", path_kind="plain", errors="default"):
         pre = (b"x" * P) if P else None
-        tb = [len(t.encode(encoding)) for t in texts]                      # what rotation_size adds
+        tb = [len(enc_bytes(t, encoding, errors)) for t in texts]          # what rotation_size must add
         disk_texts = [on_disk(t, newline) for t in texts]
-        db = [len(t.encode(encoding)) for t in disk_texts]                 # what reaches the file
+        disk_blobs = [enc_bytes(t, encoding, errors) for t in disk_texts]
+        db = [len(b) for b in disk_blobs]                                  # what reaches the file
         if via == "logger":
             got, over = run_logger_case(obj, pre, [t[:len(t) - len(end)] for t in texts], end, encoding, S, P, buffering,
-                                        newline, path_kind)
+                                        newline, path_kind, errors)
         else:
             got, over = run_sink_case(obj, ts, pre, [(u, off, t) for u, t in zip(stamps, texts)], encoding, tb, S, P,
-                                      buffering, newline, path_kind)
+                                      buffering, newline, path_kind, errors)
         rep = dict({"stream": "sink", "token": token, "spelling": obj if isinstance(obj, str) else repr(obj),
                     "limit_floor": S, "pre": P, "encoding": encoding, "texts": texts, "stamps": stamps, "offset": off,
-                    "ctime": eff, "buffering": buffering, "via": via, "end": end, "newline": newline, "path_kind": path_kind}, **rep_extra)
+                    "ctime": eff, "buffering": buffering, "via": via, "end": end, "newline": newline, "path_kind": path_kind, "errors": errors}, **rep_extra)
+        ctx.stat("errors:" + errors)
         ctx.stat("path:" + path_kind)
         ctx.stat("newline:%r" % (newline,))
         ctx.stat("buffering:%s" % ("default" if buffering is None else buffering))
@@ -321,7 +418,7 @@ def run(ctx):
                           "on disk > limit %d and is not a single message" % (rep["spelling"], encoding, buffering, via,
                                                                              path_kind, over[0], over[1], over[2], S),
                           dict(rep, observed=list(over)), key=key)
-        part = R.partition_of(got[1], disk_texts, encoding, pre)
+        part = partition_blobs(got[1], disk_blobs, pre)
         if part is None:
             ctx.violation("rotation %r: log files do not decompose into the written messages" % rep["spelling"], rep, key=key)
             return
@@ -354,9 +451,9 @@ def run(ctx):
                 ctx.violation("rotation %r: a file has %d bytes but its messages add up to %d"
                               % (rep["spelling"], size, init + sum(db[i] for i in idx)), rep, key=key)
             if not (size <= max(S, init) or (len(idx) == 1 and init == 0)):
-                ctx.violation("rotation %r, encoding %s, buffering %s, newline %r, via %s, path %s, limit %d: a file with "
-                              "messages %s holds %d bytes on disk%s" % (rep["spelling"], encoding, buffering, newline, via,
-                                                                     path_kind, S, idx, size,
+                ctx.violation("rotation %r, encoding %s, errors %s, buffering %s, newline %r, via %s, path %s, limit %d: a "
+                              "file with messages %s holds %d bytes on disk%s" % (rep["spelling"], encoding, errors, buffering,
+                                                                               newline, via, path_kind, S, idx, size,
                                                             " (rotation_size counted %d + %s)" % (init, [tb[i] for i in idx])
                                                             if db != tb else ""),
                               dict(rep, observed=[idx, size]), key=key)
@@ -371,8 +468,9 @@ def run(ctx):
             for prev, cur in zip(seq, seq[1:]):
                 k = cur[0][0]
                 if not (prev[1] + db[k] > S):
-                    ctx.violation("rotation %r, limit %d: message %d (%d bytes) started a new file although the "
-                                  "current one had %d bytes" % (rep["spelling"], S, k, db[k], prev[1]),
+                    ctx.violation("rotation %r, encoding %s, errors %s, limit %d: message %d (%d bytes) started a new file "
+                                  "although the current one had %d bytes" % (rep["spelling"], encoding, errors, S, k, db[k],
+                                                                            prev[1]),
                                   dict(rep, observed=[k, prev[1]]), key=key)
         obs = canon_files([p[0] for p in part])
         ctx.case(("sink", token, encoding, P, tuple(texts)), nontrivial=(len(part) > 1 and appended > 0))
@@ -393,13 +491,24 @@ def run(ctx):
         sink_case(R.object_of_token(c["token"]), c["token"], c["limit_floor"], c.get("pre", 0), c.get("encoding", "utf8"),
                   texts, stamps, 0, eff, ts, True, {"corpus": name}, key=c.get("key"), how="corpus",
                   buffering=c.get("buffering"), via=c.get("via", "sink"), end=c.get("end", "\n"),
-                  newline=c.get("newline", "default"), path_kind=c.get("path_kind", "plain"))
+                  newline=c.get("newline", "default"), path_kind=c.get("path_kind", "plain"),
+                  errors=c.get("errors", "default"))
 
     # ---- stream 1: real FileSinks around the limit
     n1 = ctx.n(2500, 30000) * boost
     for i in range(n1):
-        encoding = rng.choice(["utf8", "utf8", "utf8", "latin-1", "utf-16-le"])
-        if encoding == "latin-1":
+        encoding = rng.choice(["utf8", "utf8", "utf8", "latin-1", "utf-16-le", "ascii"])
+        errors = rng.choice(ERRORS)
+        if errors == "surrogatepass" and encoding not in ("utf8", "utf-16-le"):
+            errors = "default"
+        if encoding in ("latin-1", "ascii") and errors in LENIENT:
+            # characters the encoding does not have: what reaches the file depends on the error handler
+            kinds = rng.choice([["ascii", "three"], ["ascii", "latin", "two"], ["four", "ascii"], ["ascii", "three", "four"]])
+        elif encoding == "ascii":
+            kinds = ["ascii"]
+        elif errors == "surrogatepass":
+            kinds = rng.choice([["ascii", "surrogate"], ["surrogate", "two"]])
+        elif encoding == "latin-1":
             kinds = rng.choice([["ascii"], ["latin"], ["ascii", "latin"]])
         else:
             kinds = rng.choice([["ascii"], ["two"], ["three"], ["four"], ["ascii", "two", "three", "four"], ["latin"]])
@@ -447,17 +556,68 @@ def run(ctx):
                 want = rng.range(5, max(6, S // 2 + 3))
             if encoding == "utf-16-le":
                 want += want % 2
-            text = gen_text(rng, k, want, encoding, kinds, end)
+            text = gen_text(rng, k, want, encoding, kinds, end, errors)
             if rng.chance(12) and len(text) > 8:
                 mid = len(text) // 2            # a multi-line record: every inner line end is translated as well
                 text = text[:mid] + "\n" + text[mid + 1:]
-            b = len(text.encode(encoding))
+            b = len(enc_bytes(text, encoding, errors))
             texts.append(text)
             room = room - b if room - b >= 0 and room >= 0 else S - b
             t += rng.choice([0, 1, 1000, 60 * 10**6, R.HOUR, R.HOUR * 7, R.DAY]) if not pure else k
             stamps.append(t)
         sink_case(obj, token, S, P, encoding, texts, stamps, off, eff, ts, pure, {}, how=how, buffering=buffering,
-                  via=via, end=end, newline=newline, path_kind=path_kind)
+                  via=via, end=end, newline=newline, path_kind=path_kind, errors=errors)
+
+    # ---- stream 1b: another writer appends to the same file between two records (a second handler on the same
+    # path, another process): the size test must see the real end of the file
+    flines, fexp = [], []
+    for i in range(ctx.n(300, 6000) * boost):
+        S = rng.choice([16, 24, 40, 64, 100, rng.range(12, 150)])
+        P = rng.choice([0, 0, rng.range(1, S)])
+        ops, room, k, j = [], S - P, 0, 0
+        for _ in range(rng.range(3, 10)):
+            if ops and rng.chance(35):
+                blob = ("#x%d%s#\n" % (j, "." * rng.below(12))).encode()
+                ops.append(("x", j, blob))
+                j += 1
+            else:
+                want = room if (room > 6 and rng.chance(35)) else room + 1 if (room > 5 and rng.chance(20)) else rng.range(5, max(6, S // 2))
+                blob = gen_text(rng, k, want, "utf8", ["ascii"]).encode()
+                ops.append(("m", k, blob))
+                k += 1
+            room = room - len(ops[-1][2]) if room - len(ops[-1][2]) >= 0 else S - len(ops[-1][2])
+        buffering = rng.choice([None, None, 1])
+        got = run_foreign_case(S, P, ops, buffering)
+        want_files = sorted(f for f in greedy_with_foreign(S, P, ops) if f)
+        nx = sum(1 for o in ops if o[0] == "x")
+        ctx.case(("foreign", S, P, tuple(o[2] for o in ops)), nontrivial=(nx > 0 and len(want_files) > 1))
+        ctx.stat("foreign_writer_cases")
+        ctx.stat("foreign_appends", nx)
+        rep_ = {"stream": "foreign", "limit_floor": S, "pre": P, "buffering": buffering,
+                "ops": [[kind, idx, blob.decode()] for kind, idx, blob in ops],
+                "expected": [len(f) for f in want_files]}
+        if got[0] != "ok":
+            ctx.violation("size rotation %d with another writer on the same file: %s" % (S, got), dict(rep_, observed=list(got)))
+            continue
+        seen = sorted(f for f in got[1] if f)
+        if seen != want_files:
+            ctx.violation("size rotation %d, pre-existing %d bytes, another writer appending between records: files of %s "
+                          "bytes on disk, the limit demands %s (a record must start a new file when the bytes really in "
+                          "the file plus its own exceed the limit)" % (S, P, [len(f) for f in seen], [len(f) for f in want_files]),
+                          dict(rep_, observed=[len(f) for f in seen]))
+        toks = " ".join("X%d" % len(b) if kind == "x" else "%d,0,%d,%d" % (idx, len(b), len(b)) for kind, idx, b in ops)
+        # expected message indices per file, for the model
+        idx_files, cur, size = [], [], P
+        for kind, idx, b in ops:
+            if kind == "m" and size + len(b) > S:
+                idx_files.append(cur)
+                cur, size = [], 0
+            if kind == "m":
+                cur.append(idx)
+            size += len(b)
+        idx_files.append(cur)
+        flines.append("sink N%d 0 %d %s" % (S, P, toks))
+        fexp.append((rep_, canon_files(idx_files)))
 
     # ---- stream 2: spellings of sizes denote the documented quantities (value level)
     from loguru import _string_parsers as sp
@@ -501,7 +661,16 @@ def run(ctx):
         alines.append("size " + enc(s))
         aexp.append((s, e))
 
-    out = drv.run(lines + plines + alines)
+    try:
+        out = drv.run(lines + plines + alines + flines)
+    except core.DriverError as e:
+        ctx.broke("driver:" + DRIVER, str(e))
+        out = []
+    for (rep_, want), o in zip(fexp, out[len(lines) + len(plines) + len(alines):]):
+        ctx.traces_validated += 1
+        if canon_model(o) != want:
+            ctx.stat("disagreements")
+            ctx.broke("correspondence Rotation.sink (foreign writer)", "ops=%r spec=%r model=%r" % (rep_["ops"], want, o))
     for (rep, obs), o in zip(expect, out):
         ctx.traces_validated += 1
         m = canon_model(o)
@@ -542,7 +711,16 @@ def run(ctx):
 
 def replay(ctx, rep):
     r = rep["replay"]
-    if r.get("stream") == "size":
+    if r.get("stream") == "foreign":
+        ops = [(k, i, t.encode()) for k, i, t in r["ops"]]
+        got = run_foreign_case(r["limit_floor"], r["pre"], ops, r.get("buffering"))
+        want = sorted(f for f in greedy_with_foreign(r["limit_floor"], r["pre"], ops) if f)
+        seen = sorted(f for f in got[1] if f) if got[0] == "ok" else None
+        print("limit=%d pre-existing=%d ops=%r" % (r["limit_floor"], r["pre"], [(k, len(b)) for k, _, b in ops]))
+        print("files on disk (bytes):", [len(f) for f in seen] if seen is not None else got)
+        print("demanded by the limit:", [len(f) for f in want])
+        bad = seen != want
+    elif r.get("stream") == "size":
         from loguru import _string_parsers as sp
         try:
             v = sp.parse_size(r["text"])
@@ -554,23 +732,25 @@ def replay(ctx, rep):
     else:
         obj = R.object_of_token(r["token"])
         texts, enc_, S, P = r["texts"], r["encoding"], r["limit_floor"], r["pre"]
-        tb = [len(t.encode(enc_)) for t in texts]
+        tb = [len(enc_bytes(t, enc_, r.get("errors", "default"))) for t in texts]
         buffering, via, end = r.get("buffering"), r.get("via", "sink"), r.get("end", "\n")
         newline = r.get("newline", "default")
         path_kind = r.get("path_kind", "plain")
+        errors = r.get("errors", "default")
         disk_texts = [on_disk(t, newline) for t in texts]
+        disk_blobs = [enc_bytes(t, enc_, errors) for t in disk_texts]
         if via == "logger":
             got, over = run_logger_case(obj, (b"x" * P) if P else None, [t[:len(t) - len(end)] for t in texts], end, enc_,
-                                        S, P, buffering, newline, path_kind)
+                                        S, P, buffering, newline, path_kind, errors)
         else:
             got, over = run_sink_case(obj, R.ctime_pair(r["ctime"])[0], (b"x" * P) if P else None,
                                       [(u, r["offset"], t) for u, t in zip(r["stamps"], texts)], enc_, tb, S, P, buffering,
-                                      newline, path_kind)
+                                      newline, path_kind, errors)
         bad = got[0] != "ok" or over is not None
         sizes = None
         if got[0] == "ok":
-            part = R.partition_of(got[1], disk_texts, enc_, (b"x" * P) if P else None)
-            tb = [len(t.encode(enc_)) for t in disk_texts]
+            part = partition_blobs(got[1], disk_blobs, (b"x" * P) if P else None)
+            tb = [len(b) for b in disk_blobs]
             sizes = [(idx, size) for idx, size, first in part] if part else None
             if part is None:
                 bad = True
